@@ -495,6 +495,10 @@ func (c *ctx) scc(adj refmodel.Adj) {
 				comp[u] = cid
 			}
 			outs = append(outs, s.Out(cid))
+			if again := s.Subnodes(cid); !refmodel.SameSeq(again, sub) {
+				c.fail("scc", "SCC", "second-read", "Subnodes(%d) answered %v, then %v", cid, head(sub), head(again))
+				return
+			}
 		}
 		if flagSel >= 1 {
 			for u := 0; u < n; u++ {
@@ -784,6 +788,11 @@ func (c *ctx) checkSub(op string, sub graph.Subgraph, under graph.Graph, nodes [
 				c.fail("subgraph", op, "nodemap", "NodeMap translates node %d to original %v, want %d", i, g, nodes[i])
 				return
 			}
+			// a result object answers the same when asked again
+			if again := sub.Out(i); !refmodel.SameSeq(again, got) {
+				c.fail("subgraph", op, "out-second-read", "Out(%d) answered %v, then %v", i, head(got), head(again))
+				return
+			}
 			// the order of a node's edges is not fixed by the statement; what is
 			// fixed is that EdgeMap names, for every new edge, an original edge of
 			// the same node that was kept, each exactly once, and that the new
@@ -872,6 +881,10 @@ func (c *ctx) bigraph(adj refmodel.Adj) {
 		for u := 0; u < n; u++ {
 			if !refmodel.SameMultiset(bg.In(u), tr[u]) {
 				c.fail("bigraph", "MakeBiGraph", "in", "In(%d)=%v, transpose of Out is %v", u, head(bg.In(u)), head(tr[u]))
+				return
+			}
+			if !refmodel.SameMultiset(bg.In(u), tr[u]) {
+				c.fail("bigraph", "MakeBiGraph", "in-second-read", "In(%d) changed between two reads", u)
 				return
 			}
 			if !refmodel.SameSeq(bg.Out(u), adj[u]) {
